@@ -128,7 +128,10 @@ def gen_grid(rng):
     return {"kind": "grid", "N": N, "nx": nx, "dims": dims, "da_vals": da_vals, "da_name": rng.choice(["temp", "q", None]),
             "tdims": tdims, "td_vals": td_vals, "td_given": td_given, "td_name": td_name,
             "method": method, "levels": levels, "target_kind": target_kind, "tname": tname,
-            "target_dim": target_dim, "mask": rng.random() < 0.7, "bypass": False,
+            "target_dim": target_dim, "mask": rng.random() < 0.7,
+            # bypass_checks is for target_data known to increase along the axis: then it changes nothing
+            "bypass": (method == "linear" and all(all(b > a for a, b in zip(c, c[1:])) for c in cols)
+                       and rng.random() < 0.5),
             "suffix": rng.choice([None, "", "_SFX", "_transformed"]), "periodic": rng.random() < 0.04,
             "td_int": rng.random() < 0.3,
             # "extra dimensions and their chunking": data (integer or float) chunked over the non-axis dims
@@ -313,6 +316,48 @@ def extra_checks(rng, tier, notes):
             out.append((case, {"log": str(a)[:200], "linear_on_logs": str(b)[:200]},
                         "method='log' differs from method='linear' applied to the logarithms"))
     notes.append(f"log == linear-on-logarithms checked on {done} Grid.transform calls")
+    out.extend(target_packaging(rng, tier, notes))
+    return out
+
+
+def target_packaging(rng, tier, notes):
+    """The levels are the VALUES of `target`, however it is packaged: a bare array, a DataArray whose
+    coordinate equals its values, one without a coordinate, one labelled by something else (the level
+    number) all give the same numbers, for linear and log."""
+    import numpy as np
+    import warnings
+    out = []
+    n = 40 if tier == "quick" else 400
+    done = 0
+    for _ in range(n):
+        case = gen_grid(rng)
+        if case["method"] != "linear" or case["periodic"]:
+            continue
+        case["target_dim"] = None
+        if rng.random() < 0.3 and case["td_given"]:
+            shift = 1 - min(case["td_vals"]) + 1
+            case["td_vals"] = [v + shift for v in case["td_vals"]]
+            case["levels"] = [abs(v) + 0.5 for v in case["levels"]]
+            case["method"] = "log"
+        res = {}
+        try:
+            for label, pack in (("bare", {"target_kind": "bare"}), ("own", {"target_kind": "arr"}),
+                                ("nocoord", {"target_kind": "arr", "target_nocoord": True}),
+                                ("index", {"target_kind": "arr", "target_labels": "index"})):
+                g, da, target, kw, td = build_grid_call({**case, **pack})
+                with warnings.catch_warnings():
+                    warnings.simplefilter("ignore")
+                    r = g.transform(da, "Z", target, **kw)
+                res[label] = np.asarray(r.transpose(*sorted(r.dims[:-1]), r.dims[-1]).values)
+            ok = all(v.shape == res["bare"].shape and np.array_equal(v, res["bare"], equal_nan=True) for v in res.values())
+            obs = {k: v.tolist() for k, v in res.items()} if not ok else {}
+        except Exception as e:
+            ok, obs = False, {"err": f"{type(e).__name__}: {e}"[:200], "done": list(res)}
+        done += 1
+        if not ok:
+            out.append((case, obs, "the same levels packaged differently (bare / own coordinate / no coordinate / "
+                                   "labelled by number) give different results"))
+    notes.append(f"{done} linear / log transforms with the target packaged four ways")
     return out
 
 
